@@ -54,7 +54,7 @@ def run(run):
                 mi &= E[c]
             rj, rm = 'dblo %d' % ju, 'dblo %d' % mi
             with guard(run, 'Lattice.join/meet(%r)' % (l,), [pc.line, rj, rm]):
-                ej = member(L.join([cs[c] for c in l]), 'join', rj)
+                ej = member(L.join(iter([cs[c] for c in l])) if len(l) % 2 else L.join([cs[c] for c in l]), 'join', rj)
                 em = member(L.meet(iter([cs[c] for c in l])), 'meet', rm)
                 if not l and (L.join([]) is not cs[0] or L.meet([]) is not cs[-1]):
                     run.fail('empty join/meet is not infimum/supremum', None, None, [pc.line], extra)
